@@ -99,7 +99,7 @@ pub fn twin_of(id: &str) -> Option<String> {
         return None;
     }
     match id {
-        "C01" | "C02" | "C20" => Some(format!("{}T", id)),
+        "C01" | "C02" | "C04" | "C20" => Some(format!("{}T", id)),
         _ => None,
     }
 }
